@@ -43,7 +43,7 @@ def transform(inst, kind, rng_seed):
     # replace IDs by integers (dtype int64 column) - eligibility keys follow
     m = {g: str(100 + i * 7) for i, g in enumerate(sorted(inst['geos'], reverse=True))}
     _rename(t, m)
-    t['id_type'] = 'int'
+    t['id_type'] = rng.choice(['int', 'int_object'])
     info['map'] = m
   elif kind == 'rename':
     names = list(RENAME_POOL)
@@ -102,7 +102,8 @@ def run_one(inst, resolved, which):
       frame['date'] = [inst['int_dates'] + int(r[1]) for r in inst['rows']]
     data = tbrmmdata.TBRMMData(frame, 'response', se.build_elig(inst))
     mm = tbrmatchedmarkets.TBRMatchedMarkets(data, par)
-    res = mm.exhaustive_search() if which == 'exhaustive' else mm.greedy_search()
+    with core.time_limit(60):
+      res = mm.exhaustive_search() if which == 'exhaustive' else mm.greedy_search()
     return {'ok': [{'T': sorted(d.treatment_geos), 'C': sorted(d.control_geos), 'score': [float(v) for v in d.score.score],
                     'corr': float(d.diag.corr), 'impact': float(d.diag.required_impact)} for d in res]}
   except Exception as e:
@@ -173,6 +174,19 @@ def run(out, tier, model_ok=True):
       inst['params']['iroas'] = 1.0
     # three quarters of the instances are ones that admit at least one design (generation aid only: an invariance
     # comparison of two empty results says little); the rest are taken as they come, errors and empty results included
+    if rng.random() < 0.15 and len(inst['geos']) >= 2:
+      # a share bound the user read off the data: the share of one geo (or of two) as the data object reports it
+      try:
+        from matched_markets.methodology import tbrmmdata
+        gs = tbrmmdata.TBRMMData(se.build_frame(inst), 'response').geo_share
+        k = rng.randrange(len(gs))
+        v = float(gs.iloc[k]) if rng.random() < 0.6 else float(gs.iloc[k] + gs.iloc[(k + 1) % len(gs)])
+        if 0 < v < 1:
+          inst['params']['treatment_share_range'] = [v, rng.choice([x for x in (0.6, 0.8, 0.95, 0.999) if x > v] or [min(0.9999, (1 + v) / 2)])] \
+              if rng.random() < 0.5 else [rng.choice([x for x in (0.001, 0.01, 0.05) if x < v] or [v / 2]), v]
+          inst['params'].pop('budget_range', None)
+      except Exception:
+        pass
     if not feasible(inst) and rng.random() < 0.75 and i < 20 * n:
       continue
     kinds = ['shuffle', 'shift', 'rename', 'scale', 'scale_tiny', 'int_dates']
